@@ -531,6 +531,23 @@ func sortCallbackParams(p *Prog) func(fn *ssa.Function) []*ssa.Parameter {
 	}
 }
 
+// inBoundsScope: the packages whose index / slice sites the prover must discharge.
+// inputrc is proved under C12; internal/completion is left out (its grid
+// arithmetic is the C15 problem: positions computed from run-time widths).
+func inBoundsScope(path string) bool {
+	if path == modPath {
+		return true
+	}
+	for _, sfx := range boundsScopePkgs {
+		if strings.HasSuffix(path, sfx) {
+			return true
+		}
+	}
+	return false
+}
+
+var boundsScopePkgs = []string{"/internal/core"}
+
 func checkC01Nonneg(c *Ctx) {
 	p, r := c.P, c.R
 	r.Rule("C01.nonneg", "K9", "no index expression or slice bound of the commands (root package) and of the editing primitives (internal/core) can be negative: lower-bound proof by zone-domain abstract interpretation with contracts, state getters (Cursor.Pos, Line.Len) and integer field invariants; sites resting on an invariant outside the domain are in a reviewed table with the reason", 300)
@@ -549,7 +566,7 @@ func checkC01Nonneg(c *Ctx) {
 		if pk == nil && f.Parent() != nil {
 			pk = f.Parent().Pkg
 		}
-		if len(f.Blocks) == 0 || pk == nil || !(pk.Pkg.Path() == modPath || strings.HasSuffix(pk.Pkg.Path(), "/internal/core")) {
+		if len(f.Blocks) == 0 || pk == nil || !inBoundsScope(pk.Pkg.Path()) {
 			continue
 		}
 		if f.Synthetic != "" {
